@@ -432,7 +432,9 @@ fn run_inner(kind: &str, mode: &str, n: u64, sched: &[Step]) -> String {
     }
     *GATE.lock().unwrap() = None;
     drop(cl);
-    let mut ids = srv.ids.clone(); ids.sort();
+    // ids of the requests of counter-issued calls (caller-supplied ids may legitimately repeat)
+    let counter: std::collections::HashSet<u64> = sched.iter().filter_map(|s| if let Step::R(c) = s { Some(*c) } else { None }).collect();
+    let mut ids: Vec<u64> = srv.seen.iter().filter(|(tag, _)| counter.contains(tag)).map(|(_, id)| *id).collect(); ids.sort();
     let mut problems = gate.problems();
     if let Some(e) = &srv.err { problems.push(e.clone()); }
     let out: Vec<String> = (0..n).map(|c| outs.get(&c).cloned().unwrap_or_else(|| "b4".into())).collect();
@@ -607,6 +609,75 @@ fn fwd_script(rng: &mut Rng, n0: u64) -> (u64, Vec<Step>) {
     (c, s)
 }
 
+/// AsyncClient with id reuse: forwards (and counter calls) that register an id used before by a
+/// call that is finished or matched-but-undelivered, the first call then timing out or being
+/// cancelled.  The server never answers a request whose id now belongs to another call.
+fn reuse_script(rng: &mut Rng) -> (u64, Vec<Step>) {
+    #[derive(Clone)] struct Cs { id: u64, fin: bool, desig: bool, nrep: u64 }
+    let mut cs: Vec<Cs> = vec![];                               // every caller here is registered and written
+    let mut pending: HashMap<u64, usize> = HashMap::new();
+    let mut matched: Option<usize> = None;
+    let mut next_id = 1u64; let mut v = 0u64; let mut nall = 0u64;    // nall counts refused callers too
+    let mut tags: Vec<u64> = vec![];                            // caller tag of cs[i]
+    let mut s: Vec<Step> = vec![];
+    let target = rng.range(6, 18) as usize;
+    fn flush(matched: &mut Option<usize>, cs: &mut [Cs]) { if let Some(m) = matched.take() { cs[m].fin = true; } }
+    let mut guard = 0;
+    while s.len() < target && nall < 9 && guard < 200 {
+        guard += 1;
+        let blocked = matches!(matched, Some(m) if cs[m].desig && !cs[m].fin);
+        match rng.below(10) {
+            0 | 1 => {   // a counter call
+                if let Some(o) = pending.get(&next_id) { if cs[*o].desig { continue; } s.push(Step::R(nall)); nall += 1; next_id += 1; continue; }
+                let desig = rng.chance(1, 3);
+                s.push(Step::R(nall)); s.push(Step::W(nall));
+                pending.insert(next_id, cs.len()); cs.push(Cs { id: next_id, fin: false, desig, nrep: 0 }); tags.push(nall); nall += 1; next_id += 1;
+            }
+            2 | 3 | 4 => {   // a forward: reuse an id that is no longer pending, hit a pending one, take the counter's next, or a new one
+                let free_used: Vec<u64> = cs.iter().filter(|c| !pending.contains_key(&c.id)).map(|c| c.id).collect();
+                let pend_nodesig: Vec<u64> = pending.iter().filter(|(_, o)| !cs[**o].desig).map(|(i, _)| *i).collect();
+                let id = match rng.below(6) {
+                    0 | 1 | 2 if !free_used.is_empty() => *rng.pick(&free_used),
+                    3 if !pend_nodesig.is_empty() => { let mut p = pend_nodesig.clone(); p.sort(); *rng.pick(&p) }
+                    4 => next_id,
+                    _ => 2000 + nall,
+                };
+                if let Some(o) = pending.get(&id) { if cs[*o].desig { continue; } s.push(Step::F(nall, id)); nall += 1; continue; }
+                let desig = id != next_id && rng.chance(1, 4);
+                s.push(Step::F(nall, id)); s.push(Step::W(nall));
+                pending.insert(id, cs.len()); cs.push(Cs { id, fin: false, desig, nrep: 0 }); tags.push(nall); nall += 1;
+            }
+            5 | 6 | 7 => {   // a reply, only where the id is not another call's
+                if blocked || cs.is_empty() { continue; }
+                let k = rng.below(cs.len() as u64) as usize;
+                if cs[k].nrep >= 2 { continue; }
+                if let Some(o) = pending.get(&cs[k].id) { if *o != k { continue; } }
+                flush(&mut matched, &mut cs);
+                s.push(Step::Reply(tags[k], cs[k].nrep)); cs[k].nrep += 1;
+                if pending.get(&cs[k].id) == Some(&k) { pending.remove(&cs[k].id); matched = Some(k); }
+            }
+            8 => {
+                if blocked { continue; }
+                if matched.is_some() && rng.chance(1, 2) { flush(&mut matched, &mut cs); s.push(Step::D); }
+                else { flush(&mut matched, &mut cs); v += 1; s.push(Step::Unknown(3000 + v, v)); }
+            }
+            _ => {   // a call gives up
+                let cand: Vec<usize> = (0..cs.len()).filter(|i| !cs[*i].fin).collect();
+                if cand.is_empty() { continue; }
+                let k = *rng.pick(&cand);
+                s.push(if cs[k].desig { Step::T(tags[k]) } else { Step::C(tags[k]) });
+                cs[k].fin = true;
+                if pending.get(&cs[k].id) == Some(&k) { pending.remove(&cs[k].id); }
+            }
+        }
+    }
+    for k in 0..cs.len() { if cs[k].desig && !cs[k].fin { s.push(Step::T(tags[k])); cs[k].fin = true; if pending.get(&cs[k].id) == Some(&k) { pending.remove(&cs[k].id); } } }
+    if matched.is_some() { s.push(Step::D); flush(&mut matched, &mut cs); }
+    // answer whoever can still be answered
+    for k in 0..cs.len() { if !cs[k].fin && pending.get(&cs[k].id) == Some(&k) && rng.chance(3, 4) { s.push(Step::Reply(tags[k], cs[k].nrep)); pending.remove(&cs[k].id); cs[k].fin = true; } }
+    (nall.max(1), s)
+}
+
 fn gen_cases(seed: u64, thorough: bool) -> Vec<String> {
     let mut rng = Rng::new(seed);
     let mut cases = Vec::new();
@@ -655,6 +726,15 @@ fn gen_cases(seed: u64, thorough: bool) -> Vec<String> {
     for _ in 0..nfwd {
         let n0 = rng.range(1, 5);
         let (n, sched) = fwd_script(&mut rng, n0);
+        cases.push(render("async", "probe", n, &sched));
+    }
+    // id reuse (AsyncClient): the defect repaired in /repo 76754fa and its neighbourhood
+    cases.push("k=async mode=probe n=2 sched=R:0;W:0;r:0:0;F:1:1;W:1;T:0;D;r:1:0".to_string());
+    cases.push("k=async mode=probe n=2 sched=R:0;W:0;r:0:0;F:1:1;W:1;C:0;D;r:1:0".to_string());
+    cases.push("k=async mode=probe n=2 sched=F:0:1;W:0;r:0:0;R:1;W:1;C:0;D;r:1:0".to_string());
+    let nreuse = if thorough { 1500 } else { 150 };
+    for _ in 0..nreuse {
+        let (n, sched) = reuse_script(&mut rng);
         cases.push(render("async", "probe", n, &sched));
     }
     cases.into_iter().enumerate().map(|(i, c)| format!("i={i} {c}")).collect()
